@@ -315,6 +315,14 @@ struct monitor
   {
     pop = &p;
     sum = &s;
+    {
+      // the parameters the strategies will really use (after a possible tune_parameters)
+      const auto &env(p.get_problem().env);
+      cfg.tournament = env.tournament_size;
+      cfg.mate_zone = env.mate_zone;
+      cfg.elitism = env.elitism == trilean::yes ? 1 : 0;
+      cfg.age_gap = env.alps.age_gap;
+    }
     shape0.clear();
     for (unsigned l(0); l < p.layers(); ++l) shape0.push_back(p.individuals(l));
     snap = snapshot(p, fc);
@@ -566,6 +574,60 @@ void whole_run(const runcfg &c)
   g_mon<T> = nullptr;
 }
 
+// ---------------------------------------------------------------------------------------
+// case: a whole search (tune_parameters + `runs` evolutions) with the monitored strategy
+// ---------------------------------------------------------------------------------------
+fitcfg g_search_fc;
+double ga_search_fit(const i_ga &x) { return raw_fit(x, g_search_fc); }
+double de_search_fit(const i_de &x) { return raw_fit(x, g_search_fc); }
+
+template<class T, template<class> class ES, class P, class F>
+void whole_search(const runcfg &c, unsigned runs, F f, const std::map<std::string, std::string> &open)
+{
+  P prob(4, range(-50, 50));
+  // every tunable parameter starts undefined; the case sets some of them
+  const auto is_open([&](const char *k) { return open.count(k) && open.at(k) == "1"; });
+  prob.env.individuals = c.individuals;
+  prob.env.generations = c.generations;
+  if (!is_open("open_tournament")) prob.env.tournament_size = c.tournament;
+  if (!is_open("open_mate_zone")) prob.env.mate_zone = c.mate_zone;
+  if (!is_open("open_elitism")) prob.env.elitism = c.elitism ? trilean::yes : trilean::no;
+  if (!is_open("open_rates")) { prob.env.p_cross = c.p_cross; prob.env.p_mutation = c.p_mutation; }
+  if (!is_open("open_brood")) prob.env.brood_recombination = c.brood;
+  prob.env.cache_size = c.cache ? c.cache : 7;
+  random::seed(c.seed);
+
+  g_search_fc = fitcfg{c.fitk};
+  monitor<T> mon;
+  mon.cfg = c;
+  mon.fc = g_search_fc;
+  g_mon<T> = &mon;
+
+  basic_ga_search<T, ES, F> s(prob, f);
+  unsigned callbacks(0);
+  s.after_generation([&](const population<T> &, const summary<T> &) { ++callbacks; });
+  const auto res(s.run(runs));
+  if (!prob.env.is_valid(true))
+    emit("bad:tuned-environment-not-valid", "-", "noop");
+  if (res.best.score.fitness.size() != 1 || res.best.score.fitness[0] != raw_fit(res.best.solution, g_search_fc))
+    emit("bad:search-best-not-eval", "-", "noop");
+  if (!callbacks)
+    emit("bad:callback-count", "-", "noop");
+  g_mon<T> = nullptr;
+}
+
+void case_search(const std::vector<std::string> &t)
+{
+  std::map<std::string, std::string> extra;
+  const runcfg c(parse_cfg(t, 1, &extra));
+  const unsigned runs(std::stoul(extra["runs"]));
+  if (extra["T"] == "ga")
+    whole_search<i_ga, mon_std, ga_problem>(c, runs, &ga_search_fit, extra);
+  else if (extra["T"] == "de")
+    whole_search<i_de, mon_de, de_problem>(c, runs, &de_search_fit, extra);
+  else emit("bad:unknown-search-case", "-", "noop");
+}
+
 void case_run(const std::vector<std::string> &t)
 {
   std::map<std::string, std::string> extra;
@@ -738,6 +800,7 @@ int main(int argc, char *argv[])
     {
       if (t[0] == "comp") case_components(t);
       else if (t[0] == "run") case_run(t);
+      else if (t[0] == "search") case_search(t);
       else emit("bad:unknown-case", "-", "noop");
       std::cout.flush();
       std::exit(0);
